@@ -292,12 +292,12 @@ def rule_law(ck, rid="C14.R7"):
 
 
 def run(ck):
-    rule_breakpoint(ck)
-    rule_law(ck)
+    ck.attempt(rule_breakpoint)
+    ck.attempt(rule_law)
     # the documented law charges at min(pilot, maximum) in the constant-power region: the pilot's SoC rate is capped before every use
     from .c03 import rule_pilot_cap
-    rule_pilot_cap(ck, rid="C14.R6")
-    rule_ideal(ck, rid="C14.R1")
-    rule_units(ck)
-    rule_zero_pilot(ck)
-    rule_reset(ck)
+    ck.attempt(rule_pilot_cap, rid="C14.R6")
+    ck.attempt(rule_ideal, rid="C14.R1")
+    ck.attempt(rule_units)
+    ck.attempt(rule_zero_pilot)
+    ck.attempt(rule_reset)
